@@ -400,6 +400,10 @@ VARIANTS["C11"] = [
 
 # ------------------------------------------------------------------------------------------------ C10
 VARIANTS["C10"] = [
+    V("unwrap-by-squeeze", "fire", UT, [("    if len(ind) == 1:\n        return ind[0], sign\n    else:\n        return ind, sign\n", "    return np.squeeze(ind), sign\n")], ("D2",),
+      "a single detected edge collapses the edge axis too"),
+    V("unwrap-row0-always", "fire", UT, [("    if len(ind) == 1:\n        return ind[0]\n    else:\n        return ind\n", "    return ind[0]\n")], ("D2",), "2-D input loses its sample axis"),
+    V("twin-unwrap-ifexp", "twin", UT, [("    if len(ind) == 1:\n        return ind[0]\n    else:\n        return ind\n", "    return ind[0] if ind.shape[0] == 1 else ind\n")], (), ""),
     V("roll-4", "fire", SG, [("    out = np.flip(np.roll(out, 8, axis=1), axis=1)\n", "    out = np.flip(np.roll(out, 4, axis=1), axis=1)\n")], ("D1",), ""),
     V("flip-dropped", "fire", SG, [("    out = np.flip(np.roll(out, 8, axis=1), axis=1)\n", "    out = np.roll(out, 8, axis=1)\n")], ("D1",), ""),
     V("roll-no-axis", "fire", SG, [("    out = np.flip(np.roll(out, 8, axis=1), axis=1)\n", "    out = np.flip(np.roll(out, 8), axis=1)\n")], ("D1",),
